@@ -84,7 +84,7 @@ def build_world(spec: dict) -> str:
     for rel, text in sorted(spec.get("files", {}).items()):
         p = os.path.join(root, rel)
         os.makedirs(os.path.dirname(p), exist_ok=True)
-        with open(p, "w", encoding="utf-8", newline="") as f:
+        with open(p, "w", encoding="utf-8", newline="", errors="surrogateescape") as f:
             f.write(text)
     for rel, text in sorted(spec.get("decoys", {}).items()):
         p = os.path.join(root, rel.rstrip("/"))
